@@ -96,6 +96,9 @@ func (c *concInst) Check(res *mcrt.Result) []explore.Violation {
 	for _, p := range res.Panics {
 		vs = append(vs, explore.Violation{Prop: "C05", Msg: "panic: " + strings.SplitN(p, "\n", 2)[0]})
 	}
+	if res.Capped {
+		vs = append(vs, explore.Violation{Prop: "C05", Msg: fmt.Sprintf("execution did not finish within the step limit (%d steps): some thread spins or the run never terminates", res.Steps)})
+	}
 	if res.Capped || len(res.Panics) > 0 {
 		return vs
 	}
